@@ -75,7 +75,7 @@ func classifyRace(blk string) RaceReport {
 		rep.Text = rep.Text[:3000]
 	}
 	// Attribution. A report belongs to the library if at least one of the two accesses happened
-	// under a jsonschema frame and neither access was made by harness code itself. The second
+	// under a jsonschema frame and neither access was made by the simulator runtime itself. The second
 	// clause matters for the pattern "the library hands out memory it keeps writing to": the
 	// caller's read of the returned bytes happens in standard-library code (encoding/json
 	// compacting the output of MarshalJSON) with no jsonschema frame left on the stack.
@@ -89,7 +89,11 @@ func classifyRace(blk string) RaceReport {
 			if strings.HasPrefix(fr, "runtime.") {
 				continue
 			}
-			harnessAccess = strings.HasPrefix(fr, "verif.local/")
+			// Only the simulator runtime itself is excluded. A write made by a driver goes to
+			// memory the driver owns (its clone, its private instance, a result of For): if the
+			// library reads the same memory from another goroutine, the library has shared
+			// something it must not share (seeded change w9e: CloneSchemas sharing empty maps).
+			harnessAccess = strings.HasPrefix(fr, "verif.local/simrt.")
 			break
 		}
 		for _, fr := range st {
